@@ -298,3 +298,148 @@ Proof.
   - destruct (rstep L cls cf s e) as [s1 o] eqn:E1. destruct (rrun L cls cf s1 es) as [s2 os2] eqn:E2.
     inversion H; subst. eapply IH; [|exact E2]. eapply rstep_wf; eauto.
 Qed.
+
+(* ----- keep-alive lines ----- *)
+
+(* a keep-alive at the head of the buffer is consumed, sets the pause flag and sends recvCheckV2 back to
+   the top of its loop, whatever the entry point: it never completes or fails the read *)
+Lemma rd_keep_head : forall l q e c c' snap, cls l = CKeep -> pre L cf e c = PGo L c' snap ->
+  rd L cls cf (l :: q) e c = rd L cls cf q AtTop (upd_pflag c' true).
+Proof. intros l q e c c' snap Hk Hpre. cbn [rd]. rewrite Hpre, Hk, P3. reflexivity. Qed.
+
+Definition is_verdict (o : option (out L)) : Prop :=
+  match o with Some (ODelivered _ _) => True | Some (OTimeout _) => True | Some (OBadLine _) => True | _ => False end.
+
+(* a buffer holding only keep-alives produces no verdict: recvCheckV2 ends up blocked in a read with a
+   FRESH timer, or in the pausing loop, or stopped *)
+Lemma rd_all_keep : forall q e c s' o, Forall (fun l => cls l = CKeep) q ->
+  rd L cls cf q e c = (s', o) -> (forall snap, e <> GotLine snap \/ q <> []) ->
+  ~ is_verdict o /\
+  (o = None ->
+     ((exists snap, ph s' = PRead snap /\ queue s' = [] /\ tmo (core s') = fresh cf /\ ntmo (core s') = None) \/
+      (exists snap, ph s' = PGate snap (cSL cf)))).
+Proof.
+  induction q as [|l q IH]; intros e c s' o Hall H Hne.
+  - cbn [rd] in H. destruct e as [|snap|snap]; unfold pre, gate_check in H; rewrite ?P3 in H; cbn [andb] in H.
+    + destruct (pausing c), (stopped c); inversion H; subst; cbn; split; auto; intros; try discriminate; eauto 8.
+    + destruct (pausing c), (stopped c); inversion H; subst; cbn; split; auto; intros; try discriminate; eauto 8.
+    + destruct (Hne snap); congruence.
+  - inversion Hall as [|? ? Hl Hq]; subst.
+    cbn [rd] in H. destruct (pre L cf e c) as [c' p o'|c' snap] eqn:Hpre.
+    + inversion H; subst. destruct e as [|snap|snap]; unfold pre, gate_check in Hpre; rewrite ?P3 in Hpre; cbn [andb] in Hpre;
+        try discriminate;
+        destruct (pausing c), (stopped c); inversion Hpre; subst; cbn; split; auto; intros; try discriminate; eauto.
+    + rewrite Hl, P3 in H. eapply IH; [exact Hq|exact H|]. intros; left; discriminate.
+Qed.
+
+Theorem keepalive_ignored : forall s l, rwf s -> cls l = CKeep ->
+  exists s', rstep L cls cf s (EArrive l) = (s', None) /\
+  match ph s with
+  | PRead _ =>
+    if pausing (core s)
+    then ph s' = PGate (pidx (core s)) (cSL cf) /\ queue s' = [] /\ pflag (core s') = true
+    else ph s' = PRead (pidx (core s)) /\ tmo (core s') = fresh cf /\ ntmo (core s') = None /\
+         queue s' = [] /\ pflag (core s') = true
+  | p => ph s' = p /\ core s' = core s
+  end.
+Proof.
+  intros [c q p] l (Hpb & Hnt & Hph) Hk; cbn [core queue ph] in *.
+  cbn [rstep core queue ph].
+  destruct p as [|snap j|snap].
+  - destruct (stopped c); eexists; split; try reflexivity; cbn; auto.
+  - destruct (stopped c); eexists; split; try reflexivity; cbn; auto.
+  - destruct Hph as (-> & Hst & Hs & Hlt & Htm). rewrite Hst. cbn [app].
+    rewrite (rd_keep_head l [] (GotLine snap) c c snap Hk eq_refl).
+    cbn [rd]. unfold pre, gate_check. rewrite P3. cbn [andb upd_pflag pausing stopped pidx]. rewrite Hst.
+    destruct (pausing c); eexists; (split; [reflexivity|]); cbn; auto.
+Qed.
+
+(* ----- no false timeout ----- *)
+
+Lemma rd_no_timeout : forall q e c s' o b, rd L cls cf q e c = (s', o) -> o <> Some (OTimeout b).
+Proof.
+  induction q as [|l q IH]; intros e c s' o b H; cbn [rd] in H.
+  - destruct (pre L cf e c) as [c' p o'|c' snap] eqn:Hpre.
+    + inversion H; subst. destruct e; unfold pre, gate_check in Hpre; try discriminate;
+        destruct (cP3 cf && pausing c), (stopped c); inversion Hpre; subst; discriminate.
+    + inversion H; subst; discriminate.
+  - destruct (pre L cf e c) as [c' p o'|c' snap] eqn:Hpre.
+    + inversion H; subst. destruct e; unfold pre, gate_check in Hpre; try discriminate;
+        destruct (cP3 cf && pausing c), (stopped c); inversion Hpre; subst; discriminate.
+    + destruct (cls l).
+      * rewrite P3 in H. eapply IH; exact H.
+      * destruct (cP3 cf && rbt c'); inversion H; subst; discriminate.
+      * inversion H; subst; discriminate.
+      * inversion H; subst; discriminate.
+Qed.
+
+(* recvCheckV2 returns the timeout error only when a timer expires in a read that began after the last
+   pause began (snapshot = current generation, hence not pausing) and no un-expired resume timer is
+   waiting to replace it *)
+Theorem reader_no_false_timeout : forall s e s' b, rwf s ->
+  rstep L cls cf s e = (s', Some (OTimeout b)) ->
+  e = ETick /\ pausing (core s) = false /\
+  exists snap, ph s = PRead snap /\ snap = pidx (core s) /\
+    (ntmo (core s) = None \/ exists r, ntmo (core s) = Some r /\ r <= 1).
+Proof.
+  intros [c q p] e s' b (Hpb & Hnt & Hph) H; cbn [core queue ph] in *.
+  assert (Hot : forall c1 snap, pidx c1 = pidx c -> pausing c1 = pausing c -> p = PRead snap ->
+            on_timeout L cls cf q snap c1 = (s', Some (OTimeout b)) ->
+            pausing c = false /\ snap = pidx c).
+  { intros c1 snap E1 E2 -> Ho. destruct Hph as (Hq & Hst & Hs & Hlt & Htm).
+    unfold on_timeout in Ho. destruct (stopped c1); [inversion Ho|].
+    rewrite P3 in Ho. cbn [andb] in Ho. destruct (snap <? pidx c1) eqn:El.
+    - exfalso. exact (rd_no_timeout _ _ _ _ _ _ Ho eq_refl).
+    - apply Nat.ltb_ge in El. rewrite E1 in El. split; [|lia].
+      destruct (pausing c) eqn:Ep; [|reflexivity]. specialize (Hlt eq_refl). lia. }
+  destruct e as [|l| | | |]; cbn [rstep core queue ph] in H.
+  - split; [reflexivity|]. unfold rtick in H; cbn [core queue ph] in H.
+    set (c1 := upd_timers c (dec (tmo c)) (dec (ntmo c))) in *.
+    destruct p as [|snap j|snap].
+    + inversion H.
+    + destruct j as [|[|k]]; try (exfalso; exact (rd_no_timeout _ _ _ _ _ _ H eq_refl)). inversion H.
+    + destruct (fired (tmo c1)); [|inversion H].
+      destruct (ntmo c1) as [r'|] eqn:En.
+      * destruct (fired (tmo (upd_timers c1 (Some r') None))) eqn:Ef2; [|inversion H].
+        destruct (Hot (upd_timers c1 (Some r') None) snap eq_refl eq_refl eq_refl H) as (Hp & Hsn).
+        split; [exact Hp|]. exists snap. repeat split; auto.
+        cbn [tmo upd_timers] in Ef2. destruct r'; [|discriminate].
+        unfold c1 in En; cbn [ntmo upd_timers] in En. right.
+        destruct (ntmo c) as [[|[|r]]|]; cbn in En; try discriminate; eexists; split; try reflexivity; lia.
+      * destruct (Hot c1 snap eq_refl eq_refl eq_refl H) as (Hp & Hsn).
+        split; [exact Hp|]. exists snap. repeat split; auto.
+        unfold c1 in En; cbn [ntmo upd_timers] in En.
+        destruct (ntmo c) as [[|r]|]; cbn in En; try discriminate. left; reflexivity.
+  - exfalso. destruct (stopped c); [inversion H|]. destruct p; try (inversion H; fail).
+    exact (rd_no_timeout _ _ _ _ _ _ H eq_refl).
+  - inversion H.
+  - inversion H.
+  - destruct (stopped c); [inversion H|]. destruct p; inversion H.
+  - exfalso. destruct p; try (inversion H; fail). exact (rd_no_timeout _ _ _ _ _ _ H eq_refl).
+Qed.
+
+(* in particular: a timer that expires while the transfer is paused never yields an error *)
+Corollary timer_in_pause_no_error : forall s s' o, rwf s -> pausing (core s) = true ->
+  rstep L cls cf s ETick = (s', o) -> forall b, o <> Some (OTimeout b).
+Proof.
+  intros s s' o Hwf Hp H b ->. destruct (reader_no_false_timeout s ETick s' b Hwf H) as (_ & Hn & _). congruence.
+Qed.
+
+(* the pause generation only grows, and every pause that begins bumps it *)
+Lemma pidx_pause : forall s, pausing (core s) = false -> rwf s ->
+  pidx (core (fst (rstep L cls cf s EPause))) = S (pidx (core s)) /\ pausing (core (fst (rstep L cls cf s EPause))) = true.
+Proof.
+  intros [c q p] Hp (Hpb & _); cbn [core] in *. cbn [rstep core fst]. unfold do_pause.
+  rewrite <- Hpb, Hp. cbn. auto.
+Qed.
+
+(* a blocked read always has a timer (Timeout > 0): there is no state in which the reader waits for
+   input with nothing to wake it *)
+Theorem reader_has_timer : forall es s os snap, rrun L cls cf (rinit L) es = (s, os) -> ph s = PRead snap ->
+  has_timer cf (tmo (core s)) /\ stopped (core s) = false /\ queue s = [].
+Proof.
+  intros es s os snap H Hph. pose proof (rrun_wf es _ _ _ rinit_wf H) as (_ & _ & Hw).
+  rewrite Hph in Hw. destruct Hw as (Hq & Hst & _ & _ & Htm). auto.
+Qed.
+
+End ReaderProofs.
